@@ -345,7 +345,6 @@ func runConc(cc concCase) (concResult, error) {
 	ctl.Name(sm, "sessions")
 	ctl.Name(pm, "parked")
 	ctl.Name(c.r.enc, "writer")
-	common.VerifHook = ctl.Hook
 	defer func() { common.VerifHook = nil }()
 	results := make([][]string, len(cc.Threads))
 	// per thread: 1 + index of the call in flight, 0 = not started, -1 = finished (read by the watchdog below)
@@ -366,11 +365,12 @@ func runConc(cc concCase) (concResult, error) {
 	filling := atomic.Bool{}
 	body := func() {
 		filling.Store(true)
-		fillErr = c.fill(cc.Vol)
+		fillErr = c.fill(cc.Vol) // no schedule points while the tables are filled (one goroutine)
 		filling.Store(false)
 		if fillErr != nil {
 			return
 		}
+		common.VerifHook = ctl.Hook
 		if len(cc.Seq) > 0 {
 			idx := make([]int, len(cc.Threads))
 			for _, t := range cc.Seq {
@@ -718,7 +718,8 @@ var concVolSizes = []int{255, 256, 257, 1000, 1023, 1024, 1025, 2047, 2048, 2049
 
 func concMain(out string, n int, seed uint64, prop string, nVol int, volBig bool) {
 	if volBig {
-		concVolSizes = append(concVolSizes, 4096, 4097, 8192, 10000, 10001)
+		// every schedule of a program fills the tables anew (under the race detector): sizes stay moderate
+		concVolSizes = append(concVolSizes, 4096, 4097)
 	}
 	r := hutil.NewRand(seed ^ 0xC03)
 	sum := hutil.NewSummary(prop, seed,
